@@ -95,7 +95,7 @@ pub fn corner_pairs() -> Vec<(Shape, Shape)> {
 
 pub fn jobs(tier: Tier, seed: u64) -> Vec<Job> {
     let cfg = base_cfg(tier);
-    let mut out = super::c07::conformance_jobs(tier, &[2, 3]);
+    let mut out = super::c07::conformance_jobs(tier, &[2, 3, 5]);
     // the lax representation composes by the same gluing (checked `compose`, `>>`, unchecked `lax_compose`):
     // defined iff the types (resp. arities) match, and the result glues the strict meanings (lax tier)
     out.extend(super::lax::c10_jobs(tier, seed).into_iter().filter(|j| j.name.starts_with("lax compose")).take(if tier == Tier::Quick { 400 } else { 4000 }));
